@@ -316,7 +316,7 @@ def judge(cx, m, r, d, lex1, lex3):
                 relex = "F86" if nested_ext(t1) else "F93" if quoted_sub_in_ext(t1) else None
             elif t1 is not None:
                 dd = yangstrcomp.tree_diff(strip3(t1), strip3(t3))
-                relex = relex_finding(t1, t3, dd)
+                relex = relex_finding(t1, t3, dd, b"\r" in yin)
             extra = {"relex": relex, "first_diff": repr(yangstrcomp.tree_diff(strip3(t1), strip3(t3)))[:400] if t1 is not None and t3 is not None else lex3[:1] + lex3[2:3]}
             case = dict(base); case.update({"law": "yin_relex"}); case.update(extra)
             fail("yin_relex", "the YANG print of the module re-parsed from YIN differs from the first YANG print beyond quoting style", extra, recompute(case))
@@ -346,7 +346,7 @@ def node_at(tr, path):
     return n
 
 
-def relex_finding(t1, t3, dd):
+def relex_finding(t1, t3, dd, yin_has_cr=False):
     """YIN-path differences of the statement trees: F92 (extension instances of the n-th `default` moved to the first),
     F93 (statements inside an extension instance printed without quotes)"""
     if dd is None:
@@ -355,7 +355,10 @@ def relex_finding(t1, t3, dd):
     n1 = node_at(t1, path)
     if dd[1] == "arg" and dd[2][1] is not None and dd[3][1] is not None and b"\r" in dd[2][1] and \
             re.sub(rb"\n +", b"\n", dd[2][1].replace(b"\r", b"")) == re.sub(rb"\n +", b"\n", dd[3][1].replace(b"\r", b"")):
-        return "F95"            # the CR went through YIN raw and the XML reader folded CR LF into LF
+        # F95 (the CR went through YIN raw and the XML reader folded CR LF into LF) only if the YIN text really holds a raw CR; since
+        # lyxml_dump_text writes &#xD; (fix f9c2737) the CR survives YIN, and the difference comes from re-lexing the YANG print of the
+        # re-read module, whose double-quoted raw CR LF the YANG lexer folds: F82
+        return "F95" if yin_has_cr else "F82"
     if dd[1] == "arg" and n1 is not None and n1[2] & yangstrcomp.LYS_SINGLEQUOTED and dd[3][1] is not None and b"\n" in dd[3][1] and \
             re.sub(rb"\n +", b"\n", dd[2][1] or b"") == re.sub(rb"\n +", b"\n", dd[3][1]):
         return "F83"            # the first YANG print, single-quoted, already carries inserted indentation
